@@ -12,6 +12,8 @@ import (
 
 	"github.com/containerd/nri/pkg/adaptation"
 	"github.com/containerd/nri/pkg/api"
+	"github.com/containerd/nri/pkg/stub"
+	"github.com/containerd/ttrpc"
 	"google.golang.org/protobuf/proto"
 
 	"nriverif/fx"
@@ -217,7 +219,12 @@ func getFixture(n int) (*fixture, error) {
 			}
 			return renderUpdates(*s, ex.id), nil
 		}
-		if err := rt.Connect(p); err != nil {
+		// the plugin's answers pass through an interceptor that adds the evictions of its
+		// script (pkg/stub cannot express them)
+		if err := p.NewStub(rt.Socket, nil, stub.WithTTRPCOptions(nil, []ttrpc.ServerOpt{ttrpc.WithUnaryServerInterceptor(f.evictions(pi))})); err != nil {
+			return nil, fmt.Errorf("fixture %d: stub %s: %w", n, p.Name, err)
+		}
+		if err := p.Stub.Start(context.Background()); err != nil {
 			return nil, fmt.Errorf("fixture %d: connect %s: %w", n, p.Name, err)
 		}
 		if err := rt.WaitActive(w, 60*time.Second, fmt.Sprintf("pool%d", pi)); err != nil {
@@ -406,4 +413,45 @@ func (ex *execution) updates() []*api.ContainerUpdate {
 		return r.GetUpdate()
 	}
 	return nil
+}
+
+// evictions is the server interceptor of pool plugin pi: after the handler has answered a
+// creation or update request it adds the evictions the plugin's script names.
+func (f *fixture) evictions(pi int) ttrpc.UnaryServerInterceptor {
+	return func(ctx context.Context, unmarshal ttrpc.Unmarshaler, _ *ttrpc.UnaryServerInfo, method ttrpc.Method) (interface{}, error) {
+		var req interface{}
+		resp, err := method(ctx, func(i interface{}) error { req = i; return unmarshal(i) })
+		if err != nil || resp == nil {
+			return resp, err
+		}
+		id := ""
+		switch r := req.(type) {
+		case *api.CreateContainerRequest:
+			id = r.GetContainer().GetId()
+		case *api.UpdateContainerRequest:
+			id = r.GetContainer().GetId()
+		default:
+			return resp, err
+		}
+		v, ok := f.execs.Load(id)
+		if !ok {
+			return resp, err
+		}
+		ex := v.(*execution)
+		for i := range ex.c.Chain {
+			if ex.c.Chain[i].Plugin != pi {
+				continue
+			}
+			for _, tg := range ex.c.Chain[i].Evict {
+				e := &api.ContainerEviction{ContainerId: ex.id.of(tg), Reason: "asked for by the script"}
+				switch r := resp.(type) {
+				case *api.CreateContainerResponse:
+					r.Evict = append(r.Evict, e)
+				case *api.UpdateContainerResponse:
+					r.Evict = append(r.Evict, e)
+				}
+			}
+		}
+		return resp, err
+	}
 }
